@@ -38,7 +38,7 @@ PropOf(r) == [t |-> r.t, i |-> r.i, kind |-> r.kind, rb |-> r.rb, ch |-> r.ch, p
 
 CfgOf(r) == [index |-> r.index, proposed |-> r.proposed, committed |-> r.committed, applied |-> r.applied,
              state |-> r.state, master |-> r.master, term |-> r.term, amaster |-> r.amaster, aterm |-> r.aterm,
-             values |-> r.values]
+             values |-> r.values, avalues |-> r.avalues]
 
 HOf(r) == [kind |-> r.kind, sync |-> r.sync, rb |-> r.rb, ch |-> r.ch, st |-> r.st, tx |-> r.tx,
            ok |-> r.ok, code |-> r.code, ridx |-> r.ridx, rown |-> r.rown, results |-> Range(r.results)]
